@@ -298,6 +298,15 @@ static void nlv_event(VmState *vm, const char *what, int val) {
 #define NLV_EVENT(vm, what, val) ((void)0)
 #define NLV_VAL(v) 0
 #endif
+#ifdef NANOLANG_VERIF
+/* ---- H7: value-level trace (NANOLANG_VERIF_TRACE_VMVAL), see verif_vmval.h; the H1 events above are emitted unchanged ---- */
+#include "verif_vmval.h"
+#undef NLV_STEP
+#define NLV_STEP(vm, end) do { int nlv_x_ = nlv_step((vm), (end)); nlv_vstep((vm), (end), nlv_x_); \
+    if (nlv_x_) return trap_error((vm), VM_ERR_NOT_IMPLEMENTED, "verif: instruction budget exhausted"); } while (0)
+#undef NLV_EVENT
+#define NLV_EVENT(vm, what, val) do { nlv_vevent((vm), (what), (val)); nlv_event((vm), (what), (val)); } while (0)
+#endif
 
 /* ========================================================================
  * Core Execution Engine (the "processor")
@@ -1977,6 +1986,9 @@ VmResult vm_call_function(VmState *vm, uint32_t fn_idx, NanoValue *args, uint16_
             return VM_OK;
 
         case TRAP_PRINT:
+#ifdef NANOLANG_VERIF
+            nlv_vtrap(&trap.data.print.value, 1);
+#endif
             NLV_EVENT(vm, "ret_trap", NLV_VAL(trap.data.print.value));
             val_print(trap.data.print.value, vm_out(vm));
             if (trap.data.print.newline) fprintf(vm_out(vm), "\n");
@@ -1985,10 +1997,16 @@ VmResult vm_call_function(VmState *vm, uint32_t fn_idx, NanoValue *args, uint16_
             break;
 
         case TRAP_ASSERT:
+#ifdef NANOLANG_VERIF
+            nlv_vtrap(&trap.data.assert_check.condition, 1);
+#endif
             NLV_EVENT(vm, "ret_trap", NLV_VAL(trap.data.assert_check.condition));
             if (!val_truthy(trap.data.assert_check.condition)) {
                 vm_release(&vm->heap, trap.data.assert_check.condition);
                 NLV_EVENT(vm, "host_release", 0);
+#ifdef NANOLANG_VERIF
+                nlv_vend(vm, "assert", (int)VM_ERR_ASSERT_FAILED);
+#endif
                 return vm_error(vm, VM_ERR_ASSERT_FAILED, "Assertion failed");
             }
             vm_release(&vm->heap, trap.data.assert_check.condition);
@@ -1996,6 +2014,9 @@ VmResult vm_call_function(VmState *vm, uint32_t fn_idx, NanoValue *args, uint16_
             break;
 
         case TRAP_EXTERN_CALL: {
+#ifdef NANOLANG_VERIF
+            nlv_vtrap(trap.data.extern_call.args, trap.data.extern_call.argc);
+#endif
             NLV_EVENT(vm, "ret_extern", trap.data.extern_call.argc);
             NanoValue ext_result;
             char ext_err[256];
@@ -2012,6 +2033,9 @@ VmResult vm_call_function(VmState *vm, uint32_t fn_idx, NanoValue *args, uint16_
                                      ext_err, sizeof(ext_err));
             }
             if (!ffi_ok) {
+#ifdef NANOLANG_VERIF
+                nlv_vend(vm, "ffi", (int)VM_ERR_NOT_IMPLEMENTED);
+#endif
                 return vm_error(vm, VM_ERR_NOT_IMPLEMENTED,
                                 "FFI call failed: %s", ext_err);
             }
